@@ -3,6 +3,7 @@ package main
 import (
 	"math/rand"
 	"strconv"
+	"strings"
 )
 
 func baseCase(id, camp string) *Case {
@@ -39,14 +40,18 @@ func init() {
 var paramIndexes = []string{"0", "1", "2", "3", "5", "9", "10", "255", "256", "65534", "65535", "65536", "99999",
 	"2147483648", "9223372036854775807", "9223372036854775808", "18446744073709551616", "123456789012345678901234567890", "007", "00"}
 
-func genParamQuery(r *rand.Rand) string {
+func genParamQuery(r *rand.Rand) string { return genParamQueryN(r, len(paramIndexes)) }
+
+// genParamQueryN draws positional indexes from the first k table entries only (the entries
+// from 65534 on make ParameterDescription messages of 256 KiB).
+func genParamQueryN(r *rand.Rand, k int) string {
 	var b []byte
 	n := r.Intn(12)
 	for i := 0; i < n; i++ {
 		switch r.Intn(9) {
 		case 0, 1:
 			b = append(b, '$')
-			b = append(b, paramIndexes[r.Intn(len(paramIndexes))]...)
+			b = append(b, paramIndexes[r.Intn(k)]...)
 		case 2:
 			b = append(b, '$')
 			b = append(b, []byte(strconv.Itoa(1+r.Intn(12)))...)
@@ -88,7 +93,11 @@ func genParamsDescribe(r *rand.Rand, id string) *Case {
 	in := plainStartup("u")
 	n := 1 + r.Intn(3)
 	for i := 0; i < n; i++ {
-		q := "/P//ok/" + genParamQuery(r)
+		k := 9
+		if r.Intn(150) == 0 {
+			k = len(paramIndexes)
+		}
+		q := "/P//ok/" + genParamQueryN(r, k)
 		// keep '|' and NUL out of the free text (statement separator / string terminator)
 		qb := []byte(q)
 		for j := range qb {
@@ -112,3 +121,174 @@ func init() {
 	generators["params"] = genParams
 	generators["paramsd"] = genParamsDescribe
 }
+
+// ---- expectation notation (xp=): one token per backend message after the session's first ReadyForQuery
+
+func xpC(tag string) string { return "C" + hxs(tag) }
+
+// probeQuery returns a simple query that completes with the given tag, padded so that the
+// Query message body (text + NUL) is exactly bodyLen bytes when bodyLen > 0.
+func probeQuery(tag string, bodyLen int) string {
+	q := "//c:" + hxs(tag) + "/ok"
+	if bodyLen > 0 && len(q)+1 < bodyLen {
+		q += "/"
+		for len(q)+1 < bodyLen {
+			q += "x"
+		}
+	}
+	return q
+}
+
+// genLimit (C10): configured limit L, declared lengths around it, every message type, every position.
+func genLimit(r *rand.Rand, id string) *Case {
+	c := baseCase(id, "limit")
+	limits := []int{16, 32, 64, 100, 256, 4095, 4096, 4097, 8192}
+	L := limits[r.Intn(len(limits))]
+	c.L = L
+	in := plainStartup("u")
+	var xp []string
+	n := 1 + r.Intn(5)
+	seenOversize := false
+	for i := 0; i < n; i++ {
+		tag := "P" + strconv.Itoa(i)
+		k := r.Intn(10)
+		switch {
+		case k < 4 || (i == n-1 && !seenOversize && k < 6):
+			// oversized: declared body = L+1, L+2, 2L, 2L+1, 3L+7 (sent in full, so it must be skipped in full)
+			sizes := []int{L + 1, L + 2, 2 * L, 2*L + 1, 3*L + 7}
+			sz := sizes[r.Intn(len(sizes))]
+			t := []byte("QPBDESHCXdcfpz\x00")[r.Intn(15)]
+			body := randBytes(r, sz, false)
+			// make the skipped body look like protocol messages (a resynchronisation bug would execute them)
+			if sz >= 40 {
+				copy(body, msgQuery(probeQuery("INJECTED", 0)))
+			}
+			in = append(in, typed(t, body)...)
+			xp = append(xp, "E54000:ERROR")
+			if t == 'Q' {
+				xp = append(xp, "Z")
+			}
+			seenOversize = true
+		case k < 5:
+			// declared length below the 4-byte minimum: rejected, nothing read for it
+			t := []byte("QPSD")[r.Intn(4)]
+			in = append(in, typedLen(t, uint32(r.Intn(4)), nil)...)
+			xp = append(xp, "E54000:ERROR")
+			if t == 'Q' {
+				xp = append(xp, "Z")
+			}
+		case k < 7:
+			// body of exactly L (or L-1) bytes: processed normally
+			bl := L - r.Intn(2)
+			q := probeQuery(tag, bl)
+			if len(q)+1 != bl { // limit too small for the script text: plain probe
+				q = probeQuery(tag, 0)
+				if len(q)+1 > L {
+					xp = append(xp, "E54000:ERROR", "Z")
+					in = append(in, msgQuery(q)...)
+					continue
+				}
+			}
+			in = append(in, msgQuery(q)...)
+			xp = append(xp, xpC(tag), "Z")
+		default:
+			q := probeQuery(tag, 0)
+			in = append(in, msgQuery(q)...)
+			if len(q)+1 > L {
+				xp = append(xp, "E54000:ERROR", "Z")
+			} else {
+				xp = append(xp, xpC(tag), "Z")
+			}
+		}
+	}
+	scen := r.Intn(6)
+	if scen == 0 && L < 64 {
+		scen = 1
+	}
+	switch scen {
+	case 0:
+		// inside a discarded batch: a failed Parse, then an oversized message (still skipped in
+		// full and reported, but without ReadyForQuery even for a Query), then Sync
+		in = append(in, msgParse("", "!C"+hxs("42601")+".B"+hxs("nope"), nil)...)
+		xp = append(xp, "E42601:ERROR")
+		sz := L + 1 + r.Intn(2*L)
+		t := []byte("QPBDEHCdz")[r.Intn(9)]
+		body := randBytes(r, sz, false)
+		if sz >= 48 {
+			copy(body, append(msgSync(), msgQuery(probeQuery("INJECTED", 0))...))
+		}
+		in = append(in, typed(t, body)...)
+		xp = append(xp, "E54000:ERROR")
+		in = append(in, msgSync()...)
+		xp = append(xp, "Z")
+		in = append(in, msgQuery(probeQuery("END", 0))...)
+		if len(probeQuery("END", 0))+1 > L {
+			xp = append(xp, "E54000:ERROR", "Z")
+		} else {
+			xp = append(xp, xpC("END"), "Z")
+		}
+	case 1:
+		// a declared length far beyond the limit (up to 2^32-1) of which only a few bytes arrive:
+		// the server keeps skipping; it neither answers yet nor interprets the partial body
+		decl := []uint32{uint32(L) + 5 + uint32(r.Intn(100)), 0x7fffffff, 0x80000000, 0x80000004, 0xfffffffe, 0xffffffff, 0x01000005}[r.Intn(7)]
+		part := randBytes(r, r.Intn(2*L), false)
+		if int64(len(part))+4 >= int64(decl) {
+			part = part[:0]
+		}
+		if len(part) >= 40 {
+			copy(part, msgQuery(probeQuery("INJECTED", 0)))
+		}
+		in = append(in, typedLen([]byte("QPBSX")[r.Intn(5)], decl, part)...)
+	}
+	c.In = in
+	c.Cuts = randCuts(r, len(in))
+	c.Extra["xp"] = strings.Join(xp, ",")
+	c.Extra["xend"] = "w"
+	if r.Intn(10) == 0 {
+		// oversized message during startup / authentication: the connection ends, no reply
+		c2 := baseCase(id, "limit")
+		c2.L = L
+		switch r.Intn(2) {
+		case 0:
+			c2.In = append(be32(uint32(L+5+r.Intn(3*L))), randBytes(r, 8, false)...)
+			c2.Extra["xpre"] = ""
+		case 1:
+			c2.Auth = true
+			c2.In = append(plainStartup("u"), typedLen('p', uint32(L+5+r.Intn(L)), []byte("ok\x00"))...)
+			c2.Extra["xpre"] = "R3"
+		}
+		c2.Extra["xend"] = "c"
+		return c2
+	}
+	return c
+}
+
+func init() { generators["limit"] = genLimit }
+
+// genLimitBig (C10, thorough only): the 16 MiB default at its boundary.
+func genLimitBig(r *rand.Rand, id string) *Case {
+	c := baseCase(id, "limitbig")
+	c.L = []int{0, -1}[r.Intn(2)]
+	const D = 1 << 24
+	in := plainStartup("u")
+	var xp []string
+	switch r.Intn(3) {
+	case 0: // body of exactly 16 MiB: accepted
+		in = append(in, msgQuery(probeQuery("BIG", D))...)
+		xp = append(xp, xpC("BIG"), "Z")
+	case 1: // 16 MiB + 1: skipped
+		in = append(in, typed('Q', make([]byte, D+1))...)
+		xp = append(xp, "E54000:ERROR", "Z")
+	case 2: // 2 × 16 MiB + 3 of an extended message: skipped in chunks, no ReadyForQuery
+		in = append(in, typed('P', make([]byte, 2*D+3))...)
+		xp = append(xp, "E54000:ERROR")
+	}
+	in = append(in, msgQuery(probeQuery("AFTER", 0))...)
+	xp = append(xp, xpC("AFTER"), "Z")
+	c.In = in
+	c.Extra["xp"] = strings.Join(xp, ",")
+	c.Extra["xend"] = "w"
+	return c
+}
+
+func init() { generators["limitbig"] = genLimitBig }
